@@ -57,6 +57,13 @@ def bitd2bmp(castData: Dict[str, Any], clutData: bytes,
     bmp_padding_w:int = castData['w_padding']
     bmp_padding_h:int = castData['h_padding']
     bmp_palette: str = 'none'
+
+    # Sometimes the padding is negative: the image starts left of the canvas.
+    # Widen the canvas so that it holds the whole image (the decoders do the
+    # same for a negative h_padding)
+    if bmp_padding_w < 0:
+        bmp_width = bmp_width - bmp_padding_w
+        bmp_padding_w = 0
     if bmp_bpp == 8:
         bmp_palette = str(castData['palette_txt'])
     elif bmp_bpp == 1:
